@@ -231,4 +231,29 @@ Section Sufficient.
     unfold room_recv_bin, room_src_bin, room_leg, delay_ceil, delay_floor.
     rewrite (vdist_sym (nthv (rm_centers rm) k) pos). now apply ceil_is_S_trunc.
   Qed.
+
+  (** the scaled length of no leg to a visible patch is an integer *)
+  Definition legs_off_integers (pos : @vec T) : Prop :=
+    forall k, k < rm_np rm -> nthb (room_point_vis rm pos) k = true ->
+      let x := ((vdist pos (nthv (rm_centers rm) k) / t_c tm) / t_dt tm)%T in
+      (0 <= x)%T /\ x <> tofnat (ttrunc x).
+
+  (** C09 on the composed model over an ordered field with floor / ceiling / pi laws: only
+      geometric conditions and the fitting condition remain *)
+  Theorem room_reciprocal_ordered {DL : FieldLaws T} {AL : AcosLaws T}
+      (b : nat) (rho : nat -> T) (A B : @vec T) (K t : nat) :
+    length (rm_ref_out rm) = 1 -> rm_ref_in rm <> [] ->
+    (forall w a, w < length (rm_walls rm) -> a < length (rm_ref_in rm) ->
+       beta (room_scene rm) w a 0 b = rho w) ->
+    b < rm_nb rm ->
+    (forall i, i < rm_np rm -> area (room_scene rm) i <> 0%T) ->
+    legs_off_integers A -> legs_off_integers B ->
+    room_recv_fits rm tm A B K b -> room_recv_fits rm tm B A K b ->
+    t < n_samples tm ->
+    get2 (room_mono rm tm A B K false) b t = get2 (room_mono rm tm B A K false) b t.
+  Proof.
+    intros H1 Hin Hd Hb Ha HA HB HfAB HfBA Ht.
+    exact (room_reciprocal rm tm b H1 Hin rho Hd Hb Ha tpi_neq0 four_neq0 A B K t
+             (bins_linked_off_integers A HA) (bins_linked_off_integers B HB) HfAB HfBA Ht).
+  Qed.
 End Sufficient.
